@@ -284,6 +284,10 @@ class Tr:
             if isinstance(op, ast.Eq) and ast.unparse(a) == "self.func" and isinstance(b, ast.Constant) \
                     and isinstance(b.value, str) and env.get("self.func") == "string":
                 return f"(String.eqb func {coq_string(b.value)})"
+        if isinstance(n, ast.Call) and isinstance(n.func, ast.Name) and n.func.id == "isinstance" and len(n.args) == 2 \
+                and not n.keywords and isinstance(n.args[0], ast.Name) and env.get(n.args[0].id) == "dist" \
+                and isinstance(n.args[1], ast.Name) and env.get(n.args[1].id) == "class:TruncNormal":
+            return "dist_is_truncnormal"
         if isinstance(n, ast.Attribute) and ast.unparse(n) == "cls.exact_func_moments" and env.get("cls.exact_func_moments"):
             return "exact_func_moments"
         if isinstance(n, ast.Attribute) and n.attr == "is_Rational" and isinstance(n.value, ast.Name) \
@@ -560,8 +564,9 @@ def tr_get_trig_moment(cls, path, genv):
     if tail != ["assert im(result).expand() == 0", "return cls.convert_func_moment(re(result))"]:
         tr.abort(fn, f"unexpected statements after the division: {tail}")
     letl = "".join(f"  let {v} := {e} in\n" for v, e, _ in lets)
-    bind = "(R : cring) (I : R) (mom : nat -> R) (cf : Z -> R) (dcf : nat -> Z -> R)"
-    sec = ("(* R: any commutative ring; I: sympy.I; mom a: dist.get_moment(a); cf m: dist.cf(m) at an integer frequency m;\n"
+    bind = "(R : cring) (I : R) (dist_is_truncnormal : bool) (mom : nat -> R) (cf : Z -> R) (dcf : nat -> Z -> R)"
+    sec = ("(* R: any commutative ring; I: sympy.I; dist_is_truncnormal: isinstance(dist, TruncNormal);\n"
+           "   mom a: dist.get_moment(a); cf m: dist.cf(m) at an integer frequency m;\n"
            "   dcf a m: diff(dist.cf(t), t, a).xreplace({t: m}) *)\n"
            f"(* {os.path.relpath(path, lib.REPO)}:{fn.lineno}  FunctionalAssignment.get_trig_moment: `result` before `result /= ...` *)\n"
            f"Definition get_trig_moment_num {bind} (func_powers : fdict) : R :=\n{letl}  let result := r0 in\n  {num_body}.\n\n"
@@ -863,6 +868,8 @@ def generate(repo=None):
     if ss is None:
         raise Abort(f"{path}: sympy.Symbol is not imported")
     genv[ss] = "sympy.Symbol"
+    if imported_from(tree, ["program.distribution"], "TruncNormal"):
+        genv["TruncNormal"] = "class:TruncNormal"
     sy = alias_of(tree, "sympy", "sympify")
     if sy is not None:
         genv[sy] = "sympy.sympify"
@@ -871,7 +878,7 @@ def generate(repo=None):
             raise Abort(f"{path}: {nm} is not imported from symengine")
         genv[nm] = "symengine." + nm
     check_no_rebinding(tree, path, {"I", "N", "re", "im", "Rational", "diff", ss, sy or ss, "sin", "cos", "exp", "math",
-                                    "sympy2symengine", RAISE_EXC})
+                                    "sympy2symengine", "TruncNormal", "isinstance", RAISE_EXC})
     out = HEADER % repo
     out += tr_get_func_moment(cls, path) + "\n"
     out += tr_get_trig_moment(cls, path, genv) + "\n"
